@@ -141,6 +141,54 @@ fn suffix_variants(defined: &[u8]) -> Vec<Vec<u8>> {
     v
 }
 
+/// The same iff observed where header matching actually happens: the command-tree dispatcher. `def` is a leaf,
+/// a branch and a default leaf in three small trees; a candidate sent as header mnemonic must reach the handler
+/// exactly when it matches, and fail with -113 without reaching any handler otherwise.
+fn check_dispatch(ctx: &mut Ctx, def: &[u8], cands: &[Vec<u8>]) {
+    use crate::mon::dev::{Dev, Script};
+    use crate::mon::tree::{Built, Spec};
+    let lexable = |c: &Vec<u8>| !c.is_empty() && c.len() <= 12 && c[0].is_ascii_alphabetic() && c.iter().all(|b| b.is_ascii_alphanumeric() || *b == b'_');
+    let scripts = || vec![Script { id: 0, omnivore: true, ..Default::default() }, Script { id: 1, omnivore: true, ..Default::default() }];
+    // ZQ9 / WQ8 cannot match any generated definition's forms unless the definition is one of them
+    if ref_match(def, b"ZQ9") != Some(false) || ref_match(def, b"WQ8") != Some(false) {
+        return;
+    }
+    let t_leaf: Built<Dev, Script> = Built::new(&[Spec::leaf(def, false, 0), Spec::leaf(b"ZQ9", false, 1)], scripts());
+    let t_branch: Built<Dev, Script> = Built::new(&[Spec::branch(def, false, vec![Spec::leaf(b"WQ8", false, 0)]), Spec::leaf(b"ZQ9", false, 1)], scripts());
+    let t_default: Built<Dev, Script> = Built::new(&[Spec::branch(b"ZQ9", false, vec![Spec::leaf(def, true, 0), Spec::leaf(b"WQ8", false, 1)])], scripts());
+    let mut dev = Dev::new();
+    let mut c = scpi::Context::default();
+    let mut out: Vec<u8> = Vec::new();
+    for cand in cands.iter().filter(|c| lexable(c)) {
+        let exp = match ref_match(def, cand) {
+            Some(e) => e,
+            None => continue,
+        };
+        // a candidate that (possibly) addresses one of the two fixed sibling names says nothing about `def`
+        if ref_match(b"ZQ9", cand) != Some(false) || ref_match(b"WQ8", cand) != Some(false) {
+            continue;
+        }
+        for (which, tree, msg) in [
+            ("leaf", &t_leaf, cand.clone()),
+            ("branch", &t_branch, [&cand[..], b":WQ8"].concat()),
+            ("default-leaf-spelled-out", &t_default, [b"ZQ9:", &cand[..], b"?"].concat()),
+        ] {
+            bump(ctx, 1);
+            dev.clear();
+            out.clear();
+            let r = tree.root().run(&msg, &mut dev, &mut c, &mut out);
+            let inv = dev.invocations();
+            let reached = inv.len() == 1 && inv[0].0 == 0 && r.is_ok();
+            let refused = inv.is_empty() && matches!(&r, Err(e) if e.get_code() == -113);
+            ctx.count(if exp { "dispatch.expected.match" } else { "dispatch.expected.nomatch" });
+            if (exp && !reached) || (!exp && !refused) {
+                let sig = if exp { "C03:dispatch:must-match-but-header-is-undefined" } else { "C03:dispatch:matches-but-must-not" };
+                ctx.violation(&format!("{}:{}", sig, which), jobj(&[("def", jbytes(def)), ("message", jbytes(&msg)), ("expected_match", exp.to_string()), ("invocations", jstr(&format!("{:?}", inv))), ("result", jstr(&format!("{:?}", r.as_ref().map_err(|e| e.get_code()))))]));
+            }
+        }
+    }
+}
+
 pub fn run(cfg: &Cfg, rep: &mut Report) {
     // (1) directed + random definitions
     let n = cfg.n(30, 36_000, 4_800_000);
@@ -151,6 +199,9 @@ pub fn run(cfg: &Cfg, rep: &mut Report) {
         let nc = cands.len();
         for c in &cands {
             check(ctx, &def, c);
+        }
+        if ctx.index % 8 == 0 {
+            check_dispatch(ctx, &def, &cands);
         }
         ctx.sample(|| jobj(&[("definition", jbytes(&def)), ("candidates", nc.to_string()), ("first_candidates", jarr(&cands.iter().take(6).map(|c| jbytes(c)).collect::<Vec<_>>()))]));
     });
